@@ -189,8 +189,15 @@ class AtomicWrite(Protocol):
 class RealAtomicWrite(AtomicWrite):
     def atomic_write(self, path, content):
         file_handle = self.open_for_write_in_exclusive_and_create_mode(path)
-        os.write(file_handle, content)
-        os.close(file_handle)
+        try:
+            try:
+                os.write(file_handle, content)
+            finally:
+                os.close(file_handle)
+        except (IOError, OSError):
+            # do not leave a half written file behind: the name was ours
+            os.remove(path)
+            raise
 
     def open_for_write_in_exclusive_and_create_mode(self, path):
         return os.open(path, os.O_WRONLY | os.O_CREAT | os.O_EXCL, 0o600)
